@@ -109,7 +109,7 @@ example : (((runCrash 1 ((Req.revoke 0 1).prog 50) (runHist 50
 
 /-! ### fault + retry -/
 
-/-- FULL statement (false on the current tree): whatever single storage operation of a cascading revocation
+/-- FULL statement (false on the current tree, F37): whatever single storage operation of a cascading revocation
 fails, once the retried request reports success the target and all its non-orphaned descendants are dead. -/
 def revoke_fault_retry_full : Prop :=
   ∀ (f : Nat) (h : List HStep) (q : Req) (t k : Nat), q.cascadeTarget = some t →
@@ -120,28 +120,25 @@ def revoke_fault_retry_full : Prop :=
 /-- parent #1 under the root, child #2 under #1 -/
 def histTwo : List HStep := [.req (.create 0 false 5), .req (.create 1 false 3)]
 
-/-- F2: the marker write of the child (storage operation 8 of `auth/token/revoke` of the parent by the root)
-fails; the retry reports success; the child's entry is still stored. -/
-theorem revoke_fault_retry_cex : ¬ revoke_fault_retry_full := by
-  intro hfull
-  have h := hfull 50 histTwo (.revoke 0 1) 1 8 rfl (by decide +kernel) 2
-    (Desc.child (e := ⟨some 1, false⟩) .self (by decide +kernel) rfl)
-  have h2 := h.noEntry
-  revert h2
+/-- F2 (repaired by commit 17ec2c3), the former witness: the marker write of the child (storage operation 8 of
+`auth/token/revoke` of the parent by the root) fails. The failed attempt resets `tokensPendingDeletion` under the
+salted id (`some false`, nothing under the raw id), so the retry re-enters the revocation: it reports success and
+neither the child nor the parent is left. (`revoke_fault_retry_cex` held here before the repair.) -/
+theorem revoke_fault_retry_marker_write_recovers :
+    let s1 := (runFault 8 ((Req.revoke 0 1).prog 50) (runHist 50 histTwo St.init)).2.settle
+    s1.pend (.salted 2) = some false ∧ s1.pend (.raw 2) = none ∧
+    okB (run ((Req.revoke 0 1).prog 50) s1).1 = true ∧
+    (run ((Req.revoke 0 1).prog 50) s1).2.ids 2 = none ∧ (run ((Req.revoke 0 1).prog 50) s1).2.ids 1 = none ∧
+    (usable 50 2 (run ((Req.revoke 0 1).prog 50) s1).2).1 = false := by
   decide +kernel
 
-/-- ... and the child is not merely stored: requests made with it are still accepted -/
-theorem revoke_fault_retry_cex_usable :
-    (usable 50 2 (run ((Req.revoke 0 1).prog 50) (runFault 8 ((Req.revoke 0 1).prog 50) (runHist 50 histTwo St.init)).2.settle).2).1
-      = true := by decide +kernel
-
-/-- F36: the same with the entry read inside `revokeInternal` (storage operation 7) failing instead -/
-theorem revoke_fault_retry_cex_read : ¬ revoke_fault_retry_full := by
-  intro hfull
-  have h := hfull 50 histTwo (.revoke 0 1) 1 7 rfl (by decide +kernel) 2
-    (Desc.child (e := ⟨some 1, false⟩) .self (by decide +kernel) rfl)
-  have h2 := h.noEntry
-  revert h2
+/-- F36 (repaired by commit 17ec2c3), the former witness: the entry read inside `revokeInternal` (storage
+operation 7) fails; the map is reset, the retry re-enters and completes. -/
+theorem revoke_fault_retry_entry_read_recovers :
+    let s1 := (runFault 7 ((Req.revoke 0 1).prog 50) (runHist 50 histTwo St.init)).2.settle
+    s1.pend (.salted 2) = some false ∧
+    okB (run ((Req.revoke 0 1).prog 50) s1).1 = true ∧
+    (run ((Req.revoke 0 1).prog 50) s1).2.ids 2 = none ∧ (run ((Req.revoke 0 1).prog 50) s1).2.ids 1 = none := by
   decide +kernel
 
 /-- token #1 under the root with a cubbyhole key and a lease -/
@@ -156,20 +153,23 @@ theorem revoke_fault_retry_cex_pending : ¬ revoke_fault_retry_full := by
   revert h2
   decide +kernel
 
-/-- PARTIAL (what holds on the current tree for every fault position). Take any state `s`, any cascading
-revocation `q`, any fault position `k` (the `k`-th storage operation of the request fails once) and the retry.
-(1) Finality survives faults: every token whose entry is marked or gone stays marked or gone through the failed
-attempt, the expiration workers and the retry, and is refused afterwards. (2) If the failed attempt left the
-state as it was (every position before the first `revokeInternal`, e.g. a failure while authenticating or while
-loading the lease), the retry does the whole job: from a state of a fault-free history, when it reports success
-the target and all its non-orphaned descendants are dead and refused. The positions in between are covered by
-the correspondence stream `revoke-fault` only, and three of them violate the full statement (`…_cex`). -/
+/-- PARTIAL (what holds on the current tree; the only excluded positions are failures PAST a marker write, F37).
+Take any cascading revocation `q`, any fault position `k` (the `k`-th storage operation of the request fails
+once) and the retry. (1) Finality survives faults, from ANY state: every token whose entry is marked or gone
+stays marked or gone through the failed attempt and the retry, and is refused afterwards. (2) If the failed
+attempt left the STORE (and the lease cache) as it was and no `true` entry in `tokensPendingDeletion` — since
+commit 17ec2c3 this is every position up to and including the first marker write: authentication, the lease
+loads, the DFS listings, `revokeInternal`'s own entry read (F36) and the marker write itself (F2) — then from a
+state of a fault-free history the retry does the whole job: when it reports success the target and all its
+non-orphaned descendants are dead. (Positions between two complete leaf revocations:
+`revoke_fault_retry_partial_purged`.) -/
 theorem revoke_fault_retry_partial (f : Nat) (q : Req) (t : Nat) (hq : q.cascadeTarget = some t) :
     (∀ (s : St) (k x : Nat), ParentGone x s →
         ParentGone x (run (q.prog f) (runFault k (q.prog f) s).2).2 ∧
         (usable (f+1) x (run (q.prog f) (runFault k (q.prog f) s).2).2).1 = false) ∧
     (∀ (h : List HStep) (k : Nat), (∀ st ∈ h, st.rootFree) → 2 * (h.length + 1) + 8 ≤ f → t ≠ 0 →
-        (runFault k (q.prog f) (runHist f h St.init)).2 = runHist f h St.init →
+        SameButPend (runHist f h St.init) (runFault k (q.prog f) (runHist f h St.init)).2 →
+        (∀ key, (runFault k (q.prog f) (runHist f h St.init)).2.pend key ≠ some true) →
         okB (run (q.prog f) (runFault k (q.prog f) (runHist f h St.init)).2).1 = true →
         ∀ x, Desc (runHist f h St.init) t x →
           Dead (run (q.prog f) (runFault k (q.prog f) (runHist f h St.init)).2).2 x) := by
@@ -178,9 +178,11 @@ theorem revoke_fault_retry_partial (f : Nat) (q : Req) (t : Nat) (hq : q.cascade
     have h1 := runFault_keeps (al_cascade x f q t hq) k hs
     have h2 := run_keeps (al_cascade x f q t hq) h1
     exact ⟨h2, gone_unusable f x h2⟩
-  · intro h k hrf hF ht0 hsame hok x hx
-    rw [hsame] at hok ⊢
-    exact (revoke_cascade_seq h hrf f hF q t hq ht0 hok x hx).1
+  · intro h k hrf hF ht0 hsame hpend hok x hx
+    obtain ⟨hI, hn, _, _⟩ := inv_hist h St.init f inv_init hrf (by simp [St.init]; omega)
+    have hn' : (runHist f h St.init).next ≤ h.length + 1 := by simpa [St.init, Nat.add_comm] using hn
+    have hIσ := inv_sameButPend hI hsame hpend
+    exact cascade_dead hIσ f (by rw [hsame.next]; omega) q t hq ht0 hok x (desc_sameButPend hsame hx)
 
 /-- PARTIAL, second part: fault positions BETWEEN two complete leaf revocations (the DFS listings, the final
 lease delete, ...). If the failed attempt left a state `σ` that is the pre-state `s` with some tokens completely
@@ -213,7 +215,7 @@ example :
   decide +kernel
 
 /-- non-vacuity of (2): a failure of the lease read (operation 2) of `revoke #1` leaves the store as it was and
-the retry succeeds -/
+the retry succeeds (the two `…_recovers` theorems above are the instances at the entry read and the marker write) -/
 example : okB (run ((Req.revoke 0 1).prog 50) (runFault 2 ((Req.revoke 0 1).prog 50)
     (runHist 50 histTwo St.init)).2).1 = true := by decide +kernel
 
@@ -248,7 +250,7 @@ theorem revoke_vs_create_race_cex : ¬ revoke_vs_create_race_full := by
 the end -/
 def schedF3b : List Bool := List.replicate 6 true ++ List.replicate 30 false ++ List.replicate 5 true
 
-/-- F35 (F3b): on `schedF3b` the revocation's `revokeInternal` runs on the child's salted id before the child's entry
+/-- F3b: on `schedF3b` the revocation's `revokeInternal` runs on the child's salted id before the child's entry
 exists and leaves `tokensPendingDeletion[salted #2] = true`; the child is then written; a later explicit
 `auth/token/revoke` of the child reports success while its entry stays stored, not even marked (only its lease
 is removed, so lookups then refuse it; its cubbyhole and index entries stay). -/
@@ -260,6 +262,23 @@ theorem race_survivor_not_revocable_cex :
       ((Conc.start ((Req.revoke 0 1).prog 50) ((Req.create 1 false 3).prog 50)
         (runHist 50 [.req (.create 0 false 5)] St.init)).run schedF3b).st).2.ids 2).map (·.marked)
       = some false := by
+  decide +kernel
+
+/-- the revocation (A) of #2 lists #2's children, is parked at the marker write of the existing child #3; the
+whole creation (B) of a new child #4 under #2 runs; the revocation continues -/
+def schedSibling : List Bool := List.replicate 8 false ++ List.replicate 8 true ++ List.replicate 60 false
+
+/-- What the second parent-index listing of `revokeTreeInternal` is for (witness on `schedSibling`): a child
+created under #2 while the revocation of #2 is tearing down #2's existing child #3 is found when the revocation
+returns to #2 and is revoked with the rest — both requests report success and nothing of the tree is left.
+(A revocation that skips the second listing leaves #4 stored, accepted and non-orphaned; the `revoke-race` stream
+has this schedule as a directed case and classifies such a survivor as a fresh violation, not as F3.) -/
+theorem race_child_during_sibling_teardown_revoked :
+    let c := (Conc.start ((Req.revoke 0 2).prog 50) ((Req.create 2 false 9).prog 50)
+      (runHist 50 [.req (.create 0 false 5), .req (.create 1 false 3), .req (.create 2 false 4)] St.init)).run
+        schedSibling
+    c.a.okDone = true ∧ c.b.okDone = true ∧
+    c.st.ids 2 = none ∧ c.st.ids 3 = none ∧ c.st.ids 4 = none ∧ c.st.next = 5 := by
   decide +kernel
 
 /-- PARTIAL (what holds on the current tree): take any cascading revocation `q` started in any state `s0`, and a
